@@ -453,12 +453,17 @@ class SetInfoParams(Contract):
     use_at_call_sites = False
     configs = tuple(itertools.product((None, "image", "segmentation"), (None, "raw", "jpeg", "compressed_segmentation"),
                                       ("uint8", "uint16", "uint32", "uint64", "float32"),
-                                      ("absent", "raw", "compressed_segmentation"), (None, "image", "segmentation")))
+                                      ("absent", "raw", "compressed_segmentation"), (None, "image", "segmentation"))) + \
+        tuple((None, e, dt, e0, None, "own-block-size") for e in (None, "compressed_segmentation")
+              for dt in ("uint8", "uint16", "uint32", "uint64") for e0 in ("absent", "compressed_segmentation"))
 
     def setup(self, c, cfg):
-        dtype_arg, enc_arg, dt, enc0, type0 = cfg
-        self.cfg = cfg
+        dtype_arg, enc_arg, dt, enc0, type0 = cfg[:5]
+        self.own_bs = len(cfg) > 5          # the input info already carries its own block size
+        self.cfg = cfg[:5]
         sc = {"size": [1, 1, 1]}
+        if self.own_bs:
+            sc["compressed_segmentation_block_size"] = [4, 4, 4]
         if enc0 != "absent":
             sc["encoding"] = enc0
         self.info = {"data_type": dt, "num_channels": 1, "scales": [sc]}
@@ -477,7 +482,7 @@ class SetInfoParams(Contract):
         yield ("encoding:argument>existing>raw", sc.get("encoding") == enc)
         yield ("type:argument>existing>by-encoding", self.info.get("type") == typ)
         if enc == "compressed_segmentation":
-            yield ("block-size-present", sc.get("compressed_segmentation_block_size") == [8, 8, 8])
+            yield ("block-size-present(an existing one is kept)", sc.get("compressed_segmentation_block_size") == ([4, 4, 4] if self.own_bs else [8, 8, 8]))
             want = "uint32" if dt in ("uint8", "uint16") else dt
             yield ("data_type-widened-for-compressed_segmentation", self.info["data_type"] == want)
             if dt in ("uint8", "uint16", "uint32", "uint64"):
@@ -490,7 +495,7 @@ class SetInfoParams(Contract):
                 yield ("accepted-by-get_encoder", acc)
         else:
             yield ("data_type-unchanged", self.info["data_type"] == dt)
-            yield ("no-block-size-added", "compressed_segmentation_block_size" not in sc)
+            yield ("no-block-size-added", self.own_bs or "compressed_segmentation_block_size" not in sc)
 
 
 class _FindingUnit(Lemma):
